@@ -57,6 +57,9 @@ type Runtime struct {
 
 func commandPattern(n *Node) string {
 	var b strings.Builder
+	if n.Prefix != "" {
+		b.WriteString(n.Prefix + " ")
+	}
 	b.WriteString("op " + n.Name)
 	for _, in := range n.Ins {
 		if in.Join {
